@@ -115,6 +115,9 @@ def _gen_C14(rng, tier, seed):
     c["config"]["sweep_every"] = rng.choice([0, 0, 4, 8])
     if c["config"]["backend"] == "mem":
         c["ops"] = [o for o in c["ops"] if o["op"] != "reopen"]
+    elif rng.random() < 0.1:
+        c["query_after_close"] = True
+        c["config"]["backend"] = rng.choice(["sim", "real"])
     elif rng.random() < 0.15:
         c["reopen_with_fewer_rules"] = rng.choice([1, 1, 2])
     elif rng.random() < 0.3:
